@@ -589,6 +589,32 @@ def gen_program(seed, tier, index, avoid=("regsplit", "nestedpad"), nunits=50, m
             continue
         u.params, u.ret, u.retmode = sg
         units.append(u)
+    # curated SIGNATURES: register-exhaustion boundaries of the SysV classification. After an aggregate (or scalar run)
+    # that no longer fits, a later aggregate that still fits must travel in registers, and vice versa.
+    if "regsplit" not in avoid:
+        i64, f64, i32 = P("int64"), P("float64"), P("int32")
+        sII = S(sh.add([i64, i64]))
+        sID = S(sh.add([i64, f64]))
+        sDD = S(sh.add([f64, f64]))
+        sDI = S(sh.add([f64, i32]))
+        fams = []
+        for n in (3, 4, 5, 6, 7, 8):
+            fams.append([i64] * n + [sII, sID, i64])
+            fams.append([i64] * n + [sDD, sII])
+            fams.append([i64] * n + [sID, sDI, sII])
+        for n in (6, 7, 8, 9, 10):
+            fams.append([f64] * n + [sDD, sII, f64])
+            fams.append([f64] * n + [sDI, sDD])
+        fams.append([sII, sII, sII, sII, sID])
+        fams.append([sDD, sDD, sDD, sDD, sDD, sDI])
+        pick = [fams[(index * 7 + j) % len(fams)] for j in range(6)]
+        for params in pick:
+            u = Unit()
+            u.kind = r.choice(["call", "call", "cb", "fp"])
+            u.form = r.choice(["named", "lit", "var"]) if u.kind == "cb" else "-"
+            j = r.choice([k for k, t in enumerate(params) if t[0] == "s"])
+            u.params, u.ret, u.retmode = list(params), params[j], ("xf", j)
+            units.append(u)
     while len(units) < nunits:
         u = Unit()
         k = r.random()
@@ -774,6 +800,23 @@ def render(sh, units, modname):
                 G.append("//go:linkname Get%d C.get%d\nfunc Get%d() Fpt%d" % (i, i, i, i))
                 callee_go, callee_c = "fp", "fp"
                 pre_go, pre_c = ["fp := cab.Get%d()" % i], ["fpt%d fp = get%d();" % (i, i)]
+            snap = [k for k, t in enumerate(u.params) if t[0] == "s" and sh.size_align(t)[0] > 16]
+            if u.kind == "call" and snap and i % 3 == 0:
+                # the argument is a copy taken from memory that is overwritten before the call, all in one basic block
+                # (prev := s.cur; s.cur = next; f(prev)): C must see the value as of the copy
+                k = snap[0]
+                t = u.params[k]
+                tn = sh.gofield(t, False)
+                M.append("type hold%dT struct {\n\tgen int\n\tcur %s\n}" % (i, tn))
+                other = lit(sh, t, xform(sh, t, u.args[k]), "go")
+                gl = [lit(sh, tt, v, "go") for tt, v in zip(u.params, u.args)]
+                gl[k] = "prev"
+                call = "%s(%s)" % (callee_go, ", ".join(gl))
+                rt = rett(u, "go")
+                body = ["prev := s.cur", "s.cur = next", "s.gen++", ("return " if u.ret is not None else "") + call]
+                M.append("//go:noinline\nfunc snap%d(s *hold%dT, next %s) %s {\n\t%s\n}" % (i, i, tn, rt, "\n\t".join(body)))
+                pre_go = pre_go + ["s := &hold%dT{cur: %s}" % (i, lit(sh, t, u.args[k], "go"))]
+                callee_go, gargs = "snap%d" % i, "s, %s" % other
             if u.ret is not None:
                 MM.append("func u%d() {\n\t%s\n}" % (i, "\n\t".join(pre_go + ["r := %s(%s)" % (callee_go, gargs), go_println("G", i, "r", rparts)])))
                 DM.append("static void u%d(void) {\n\t%s\n}" % (i, "\n\t".join(pre_c + ["%s r = %s(%s);" % (rett(u, "c"), callee_c, cargs), c_print("G", i, "r", rparts)])))
